@@ -24,8 +24,13 @@ def arg(net, v, form):
     return net.getNode(v) if form else v
 
 
-def build_network(n, g):
-    """g: list of [s, t, w, o]; edge j (1-based) has interior vertices 100+j, 200+j from stored source to target."""
+def is_dup(n, j):
+    return (n + j) % 3 == 0
+
+
+def build_network(n, g, dup=False):
+    """g: list of [s, t, w, o]; edge j (1-based) has interior vertices 100+j, 200+j from stored source to target.
+    dup: every third edge records its first interior vertex TWICE (a zero-length piece, as digitised networks have)."""
     from tracklib.core.network import Network, Node, Edge
     from tracklib.core.track import Track
     from tracklib.core.obs import Obs
@@ -33,7 +38,7 @@ def build_network(n, g):
     for k in range(n):
         net.addNode(Node(k, vcoord(k)))
     for j, (s, t, w, o) in enumerate(g, start=1):
-        geom = Track([Obs(vcoord(s)), Obs(vcoord(100 + j)), Obs(vcoord(200 + j)), Obs(vcoord(t))])
+        geom = Track([Obs(vcoord(s)), Obs(vcoord(100 + j))] + ([Obs(vcoord(100 + j))] if dup and is_dup(n, j) else []) + [Obs(vcoord(200 + j)), Obs(vcoord(t))])
         e = Edge(j - 1 + eid0(n, g), geom)
         e.orientation = o
         e.weight = w
@@ -89,6 +94,32 @@ def dist_events(n, g, id0, cuts, with_lists=True):
                          for s in range(n) for t in range(n)
                          if net4.has_prepared_shortest_distance(arg(net4, s, (s + t + 1) & 1), arg(net4, t, (s + 2 * t) >> 1 & 1))]
             ev.append({"id": id0 + len(ev), "ev": "table", "n": n, "g": g, "cut": cut, "pairs": pairs, "api": "prepare"})
+    if g and (n + len(g)) % 2 == 0:
+        # history: the network was PREPARED when it still lacked its last edge and its first edge was 3 heavier; both were edited
+        # afterwards (addEdge, edge.weight) - the pair query answers for the network as it stands
+        from tracklib.core.network import Node, Edge
+        from tracklib.core.track import Track
+        from tracklib.core.obs import Obs
+        g0 = [list(x) for x in g[:-1]]
+        if g0:
+            g0[0][2] += 3
+        net5 = build_network(n, g0)
+        with core.quiet():
+            net5.prepare(verbose=False)
+            if g0:
+                net5.getEdge(eid0(n, g0)).weight = g[0][2]
+            s_, t_, w_, o_ = g[-1]
+            j = len(g)
+            ed = Edge(j - 1 + eid0(n, g0), Track([Obs(vcoord(s_)), Obs(vcoord(100 + j)), Obs(vcoord(200 + j)), Obs(vcoord(t_))]))
+            ed.orientation = o_
+            ed.weight = w_
+            net5.addEdge(ed, Node(s_, vcoord(s_)), Node(t_, vcoord(t_)))
+            for s in range(n):
+                for t in range(n):
+                    if (s + t + len(g)) % 2:
+                        continue
+                    d = net5.shortest_distance(s, t)
+                    ev.append({"id": id0 + len(ev), "ev": "dist", "n": n, "g": g, "s": s, "t": t, "d": wire(d), "api": "pair, network edited after prepare()"})
     net3 = build_network(n, g)
     with core.quiet():
         net3.prepare(verbose=False)
@@ -118,6 +149,40 @@ def path_events(n, g, id0):
                     e["has"] = True
                     e["path"] = [int(x) for x in p.path]
                     e["geom"] = [vid(o.position) for o in p.getObsList()]
+            except Exception as ex:
+                e["exc"] = repr(ex)[:200]
+            ev.append(e)
+    return ev
+
+
+def path_events_dup(n, g, id0):
+    """edges with a repeated interior vertex: the returned geometry must repeat it too.  Abstraction: for such an edge the pair
+    (100+j, 100+j) stands for the model's vertex 100+j; a single 100+j is mapped to a label no edge has (700+j)"""
+    ev = []
+    net = build_network(n, g, dup=True)
+    for s in range(n):
+        for t in range(n):
+            if s == t or (s + t + len(g)) % 2 == 0:
+                continue
+            e = {"id": id0 + len(ev), "ev": "path", "n": n, "g": g, "s": s, "t": t, "has": False, "path": [], "geom": [], "hist": "repeated vertices"}
+            try:
+                with core.quiet():
+                    p = net.shortest_path(s, t)
+                if p is not None:
+                    e["has"] = True
+                    e["path"] = [int(x) for x in p.path]
+                    raw = [vid(o.position) for o in p.getObsList()]
+                    out, k = [], 0
+                    while k < len(raw):
+                        v = raw[k]
+                        if 100 <= v < 200 and is_dup(n, v - 100):
+                            if k + 1 < len(raw) and raw[k + 1] == v:
+                                out.append(v); k += 2
+                            else:
+                                out.append(v + 600); k += 1
+                        else:
+                            out.append(v); k += 1
+                    e["geom"] = out
             except Exception as ex:
                 e["exc"] = repr(ex)[:200]
             ev.append(e)
